@@ -1,4 +1,10 @@
-import RModel.Model.Output
+import RModel.Props.C19a
+import RModel.Props.C19b
+import RModel.Props.C19c
+import RModel.Props.C19d
+import RModel.Props.C19e
+import RModel.Props.C19f
+import RModel.Props.C19g
 /-
   C19 — Machine-readable output is one well-formed, schema-conformant document.
   (property theorems only; the model is Model/Output.lean, the tables are Gen/Bindings.lean and Gen/OutputShapes.lean)
@@ -7,7 +13,15 @@ import RModel.Model.Output
   (rename, replace) × a --preview value given or not × --no-regex (replace) × {something found, nothing found} ×
   {no failure, failure at each fallible site of the handler}; the conformance statements range over
   command × {matches, none} × {renames, none} (`docScenarios`).
-  All statements are Boolean evaluations of that finite table, closed by kernel evaluation.
+  All statements are Boolean evaluations of that finite table, closed by kernel evaluation (`decide +kernel`).  The
+  evaluations themselves live in the part modules Props/C19a … C19g (namespace `C19.Part`, same statements, with the
+  non-vacuity examples) so that lake runs them in parallel; every theorem below restates its statement in full and is
+  closed by the part's theorem, so this file is the complete list of what is proved.
+
+  The decidable guards are defined in Props/C19a.lean:
+    replaceJsonQuiet r   := r.cmd == .replace && r.json && r.quiet
+    replaceEarlyReturn r := r.cmd == .replace && r.yes && !r.dryRun && !r.planEmpty && r.json
+    shapeMismatch c m n  := c == .history || c == .status
 -/
 namespace C19
 open Output
@@ -19,19 +33,6 @@ def C19_full : Prop :=
   ∀ r ∈ jsonRows, ∀ s ∈ docScenarios r.cmd, (s.1 && s.2) = r.planEmpty →
     check r (fun o => oneDocument o && conformsCmd r.cmd s.1 s.2 && (o.exitZero == succeeded r o)) = true
 
-/-! ### guards (decidable, per row) -/
-
-/-- `replace` leaves through its early return before printing anything: `--output json --quiet` -/
-def replaceJsonQuiet (r : Row) : Bool := r.cmd == .replace && r.json && r.quiet
-
-/-- `replace` is asked to apply (`-y`, no `--dry-run`, something to do) but returns early (`--output json` or `--quiet`) -/
-def replaceEarlyReturn (r : Row) : Bool :=
-  r.cmd == .replace && r.yes && !r.dryRun && !r.planEmpty && (r.json || r.quiet)
-
-/-- (command, scenario) pairs whose emitted document is not a member of the declared type -/
-def shapeMismatch (cmd : Cmd) (noMatches noRenames : Bool) : Bool :=
-  (cmd == .search && !(noMatches && noRenames)) || cmd == .history || cmd == .status
-
 /-! ### exactly one document -/
 
 /-- Every `--output json` row in which nothing fails — except `replace --output json --quiet` — writes exactly one
@@ -39,13 +40,12 @@ def shapeMismatch (cmd : Cmd) (noMatches noRenames : Bool) : Bool :=
     the options and the scenario are. -/
 theorem one_document_partial :
     (jsonRows.all fun r => check r fun o =>
-      o.failed || replaceJsonQuiet r || (oneDocument o && o.stdout.head? == emittedDoc r.cmd)) = true := by decide +kernel
-
-example : (jsonRows.filter fun r => check r fun o => !o.failed && !replaceJsonQuiet r).length > 100 := by decide +kernel
+      o.failed || replaceJsonQuiet r || (oneDocument o && o.stdout.head? == emittedDoc r.cmd)) = true :=
+  Part.one_document_partial
 
 /-- Nothing but JSON is ever written to stdout in a `--output json` row (no preview, summary, prompt or message). -/
 theorem only_json_on_stdout :
-    (jsonRows.all fun r => check r fun o => o.stdout.all Payload.isJson) = true := by decide +kernel
+    (jsonRows.all fun r => check r fun o => o.stdout.all Payload.isJson) = true := Part.only_json_on_stdout
 
 /-- WITNESS error_path_no_document (main.rs::main, `Err` arm): every `--output json` row in which a fallible site of the
     handler fails writes no document at all; the message goes to stderr and the status is not 0.  Every command
@@ -53,62 +53,63 @@ theorem only_json_on_stdout :
 theorem C19_witness_error_path_no_document :
     (jsonRows.all fun r => check r fun o =>
       !o.failed || (o.stdout == [] && !oneDocument o && decide (o.stderrSites ≥ 1) && !o.exitZero)) = true
-    ∧ ((Cmd.all.filter (· != .version)).all fun c => jsonRows.any fun r => r.cmd == c && check r (·.failed)) = true := by
-  decide +kernel
+    ∧ ((Cmd.all.filter (· != .version)).all fun c => jsonRows.any fun r => r.cmd == c && check r (·.failed)) = true :=
+  Part.C19_witness_error_path_no_document
 
 /-- the recorded instance: `renamify undo nosuch --output json` -/
 theorem C19_witness_error_path_no_document_undo :
     outcome { cmd := .undo, json := true, quiet := false, dryRun := false, yes := false, preview := false, noRegex := false,
               planEmpty := false, failAt := some 0 }
-      = some { stdout := [], stderrSites := 1, exitZero := false, performed := [], failed := true } := by decide +kernel
+      = some { stdout := [], stderrSites := 1, exitZero := false, performed := [], failed := true } :=
+  Part.C19_witness_error_path_no_document_undo
 
 /-- WITNESS replace_json_quiet_no_document: `replace … --output json --quiet` succeeds (status 0) and writes nothing. -/
 theorem C19_witness_replace_json_quiet_no_document :
     (jsonRows.all fun r => check r fun o => !(replaceJsonQuiet r && !o.failed) || (o.stdout == [] && o.exitZero)) = true
-    ∧ (jsonRows.any fun r => replaceJsonQuiet r && check r (fun o => !o.failed)) = true := by decide +kernel
+    ∧ (jsonRows.any fun r => replaceJsonQuiet r && check r (fun o => !o.failed)) = true :=
+  Part.C19_witness_replace_json_quiet_no_document
 
 /-- The `--preview` option and (except for `replace`) `--quiet` have no influence on a `--output json` row. -/
 theorem preview_ignored_under_json :
-    (jsonRows.all fun r => outcome r == outcome { r with preview := !r.preview }) = true := by decide +kernel
+    (jsonRows.all fun r => outcome r == outcome { r with preview := !r.preview }) = true := Part.preview_ignored_under_json
 
 theorem quiet_ignored_under_json_except_replace :
-    (jsonRows.all fun r => r.cmd == .replace || outcome r == outcome { r with quiet := !r.quiet }) = true := by decide +kernel
+    (jsonRows.all fun r => r.cmd == .replace || outcome r == outcome { r with quiet := !r.quiet }) = true :=
+  Part.quiet_ignored_under_json_except_replace
 
 /-! ### the document is a member of the declared type -/
 
 /-- The document of every command is a member of every type a wrapper declares for it, in every scenario, except:
-    `search` with at least one match or rename, `history`, `status`. -/
+    `history`, `status`. -/
 theorem conforms_bindings_partial :
-    (Cmd.all.all fun c => (docScenarios c).all fun s => shapeMismatch c s.1 s.2 || conformsCmd c s.1 s.2) = true := by
-  decide +kernel
-
-example : (Cmd.all.filter fun c => !(expectedTypes c).isEmpty && !shapeMismatch c false false).length ≥ 6 := by decide +kernel
+    (Cmd.all.all fun c => (docScenarios c).all fun s => shapeMismatch c s.1 s.2 || conformsCmd c s.1 s.2) = true :=
+  Part.conforms_bindings_partial
 
 /-- The bare plan printed by `replace --output json` is a `Plan` of the bindings (no wrapper consumes it). -/
 theorem replace_prints_a_plan :
     emittedDoc .replace = some (.pretty n!"Plan")
-    ∧ conformsGen { replaceEmpty := false, noMatches := false, noRenames := false } (.ref n!"Plan") (.ref n!"Plan") = true := by
-  decide +kernel
+    ∧ conformsGen { replaceEmpty := false, noMatches := false, noRenames := false } (.ref n!"Plan") (.ref n!"Plan") = true :=
+  Part.replace_prints_a_plan
 
-/-- WITNESS search_mode_required_fields: with an empty replacement `MatchHunk.replace` and `Rename.new_path` are skipped by
-    serde (`skip_serializing_if`), but the bindings declare them as required members; so the plan printed by `search`
-    is not a `Plan` as soon as it has a match or a rename (and is one when it has neither). -/
-theorem C19_witness_search_mode_required_fields :
-    conformsGen { replaceEmpty := true, noMatches := false, noRenames := true } (.ref n!"MatchHunk") (.ref n!"MatchHunk") = false
-    ∧ conformsGen { replaceEmpty := false, noMatches := false, noRenames := true } (.ref n!"MatchHunk") (.ref n!"MatchHunk") = true
-    ∧ conformsGen { replaceEmpty := true, noMatches := true, noRenames := false } (.ref n!"Rename") (.ref n!"Rename") = false
-    ∧ conformsGen { replaceEmpty := false, noMatches := true, noRenames := false } (.ref n!"Rename") (.ref n!"Rename") = true
+/-- (repaired by 7e5290d + regenerated bindings, formerly WITNESS search_mode_required_fields) With an empty replacement
+    `MatchHunk.replace` and `Rename.new_path` are still skipped by serde, but the bindings now declare them optional
+    (`replace?`, `new_path?`), so the plan printed by `search` is a `Plan` in every scenario.  A binding that goes back
+    to a required member (or a new skipped member with a required binding) would falsify this. -/
+theorem search_mode_members_optional :
+    pres3 { replaceEmpty := true, noMatches := false, noRenames := false } n!"replace" .ifNonEmpty = .absent
+    ∧ conformsGen { replaceEmpty := true, noMatches := false, noRenames := true } (.ref n!"MatchHunk") (.ref n!"MatchHunk") = true
+    ∧ conformsGen { replaceEmpty := true, noMatches := true, noRenames := false } (.ref n!"Rename") (.ref n!"Rename") = true
     ∧ replaceEmptyOf .search = true
-    ∧ conformsCmd .search false false = false ∧ conformsCmd .search false true = false
-    ∧ conformsCmd .search true false = false ∧ conformsCmd .search true true = true := by decide +kernel
+    ∧ ((docScenarios .search).all fun s => conformsCmd .search s.1 s.2) = true :=
+  Part.search_mode_members_optional
 
 /-- WITNESS history_shape_mismatch: `history --output json` prints `{"entries":[HistoryItem…]}`; `cliService.history`
     returns it as `HistoryEntry[]` (an object is not an array; a `HistoryItem` has no `created_at`). -/
 theorem C19_witness_history_shape_mismatch :
     conformsCmd .history false false = false
     ∧ (expectedTypes .history).map (·.1) = [n!"vscode.history"]
-    ∧ conformsGen ⟨false, false, false⟩ (.arr (.ref n!"HistoryEntry")) (.arr (.ref n!"HistoryItem")) = false := by
-  decide +kernel
+    ∧ conformsGen ⟨false, false, false⟩ (.arr (.ref n!"HistoryEntry")) (.arr (.ref n!"HistoryItem")) = false :=
+  Part.C19_witness_history_shape_mismatch
 
 /-- WITNESS status_shape_mismatch: `status --output json` prints `{pending_plan, history_count, last_operation: string|null}`;
     `cliService.status` returns it as `Status = { current_plan?: Plan, last_operation?: HistoryEntry }`. -/
@@ -116,7 +117,8 @@ theorem C19_witness_status_shape_mismatch :
     conformsCmd .status false false = false
     ∧ (expectedTypes .status).map (·.1) = [n!"vscode.status"]
     ∧ conformsGen ⟨false, false, false⟩ (.ref n!"HistoryEntry") .str = false
-    ∧ conformsGen ⟨false, false, false⟩ (.ref n!"HistoryEntry") .null = false := by decide +kernel
+    ∧ conformsGen ⟨false, false, false⟩ (.ref n!"HistoryEntry") .null = false :=
+  Part.C19_witness_status_shape_mismatch
 
 /-! ### status -/
 
@@ -125,47 +127,48 @@ theorem C19_witness_status_shape_mismatch :
 theorem exit_code_discipline :
     Gen.exitOk = 0 ∧ errCodes.all (· != 0) = true ∧ Gen.errArmStdoutSites = 0 ∧ Gen.errArmStderrSites ≥ 1
     ∧ Gen.preDispatchExits.all (fun e => e.2.1 != n!"0") = true
-    ∧ Gen.initHelperStdoutSites.all (fun e => e.2 == 0) = true := by decide +kernel
+    ∧ Gen.initHelperStdoutSites.all (fun e => e.2 == 0) = true := Part.exit_code_discipline
 
 /-- The status is 0 exactly when nothing failed and the requested operations were performed — in every row (json or
-    not) except `replace` asked to apply (`-y`, no `--dry-run`, something to do) with `--output json` or `--quiet`. -/
+    not) except `replace` asked to apply (`-y`, no `--dry-run`, something to do) with `--output json`. -/
 theorem status_zero_iff_success_partial :
-    (rows.all fun r => check r fun o => replaceEarlyReturn r || (o.exitZero == succeeded r o)) = true := by decide +kernel
+    (rows.all fun r => check r fun o => replaceEarlyReturn r || (o.exitZero == succeeded r o)) = true :=
+  Part.status_zero_iff_success_partial
 
-example : (rows.filter fun r => !replaceEarlyReturn r).length > 500 := by decide +kernel
-
-/-- WITNESS replace_json_not_applied / replace_quiet_not_applied: in every such row in which nothing fails the status is 0,
-    `apply_plan` was asked for and never called. -/
+/-- WITNESS replace_json_not_applied: in every such row in which nothing fails the status is 0, `apply_plan` was asked for
+    and never called. -/
 theorem C19_witness_replace_early_return :
     (rows.all fun r => check r fun o => !(replaceEarlyReturn r && !o.failed) ||
         (o.exitZero && (intended r).contains n!"apply_plan" && !o.performed.contains n!"apply_plan" && !succeeded r o)) = true
-    ∧ (rows.any fun r => replaceEarlyReturn r && check r (fun o => !o.failed)) = true := by
-  decide +kernel
+    ∧ (rows.any fun r => replaceEarlyReturn r && check r (fun o => !o.failed)) = true :=
+  Part.C19_witness_replace_early_return
 
 theorem C19_witness_replace_json_not_applied :
     check (plainRow .replace)
-      (fun o => o.stdout == [.pretty n!"Plan"] && o.exitZero && !o.performed.contains n!"apply_plan") = true := by decide +kernel
+      (fun o => o.stdout == [.pretty n!"Plan"] && o.exitZero && !o.performed.contains n!"apply_plan") = true :=
+  Part.C19_witness_replace_json_not_applied
 
-theorem C19_witness_replace_quiet_not_applied :
-    check { plainRow .replace with json := false, quiet := true }
-      (fun o => o.stdout == [] && o.exitZero && !o.performed.contains n!"apply_plan") = true := by decide +kernel
-
-/-- control: without `--output json` / `--quiet` the same command line does call `apply_plan` -/
-theorem replace_summary_applies :
-    check { plainRow .replace with json := false }
-      (fun o => o.performed.contains n!"apply_plan" && succeeded { plainRow .replace with json := false } o) = true := by
-  decide +kernel
+/-- (repaired by 9b4e272, formerly WITNESS replace_quiet_not_applied) In the summary format `replace -y` without
+    `--dry-run` and with something to do calls `apply_plan` and succeeds whether or not `--quiet` is given, and with
+    `--quiet` it writes nothing to stdout.  An early return of the quiet path would falsify this. -/
+theorem replace_quiet_applies :
+    (rows.all fun r => check r fun o =>
+      !(r.cmd == .replace && !r.json && r.yes && !r.dryRun && !r.planEmpty && !o.failed) ||
+        (o.performed.contains n!"apply_plan" && succeeded r o && (!r.quiet || o.stdout == []))) = true
+    ∧ check { plainRow .replace with json := false, quiet := true }
+        (fun o => o.stdout == [] && o.exitZero && o.performed.contains n!"apply_plan") = true :=
+  Part.replace_quiet_applies
 
 /-! ### the sources outside the handlers are as the model assumes -/
 
 /-- The only stdout emission sites of the core library outside `RENAMIFY_DEBUG_*` guards are the two inside
     `rename_operation` (preview before the prompt, the prompt) and the uncalled `write_preview`. -/
-theorem core_sites_as_modelled : Gen.coreStdoutSites = assumedCoreSites := by decide +kernel
+theorem core_sites_as_modelled : Gen.coreStdoutSites = assumedCoreSites := Part.core_sites_as_modelled
 
 /-- Every command has a handler with an event list, and emits a document of a known shape. -/
 theorem table_is_total :
     (rows.all fun r => (outcome r).isSome) = true
-    ∧ (Cmd.all.all fun c => match emittedDoc c with | some p => (docShape p).isSome | none => false) = true := by
-  decide +kernel
+    ∧ (Cmd.all.all fun c => match emittedDoc c with | some p => (docShape p).isSome | none => false) = true :=
+  Part.table_is_total
 
 end C19
